@@ -245,6 +245,45 @@ class C15(vlib.Driver):
             for (dt, lo, hi) in wide[:2]:
                 cases.append({"kind": "prep", "algo": algo, "space": {"t": "box", "shape": [2, 6, 6], "dtype": dt, "low": lo, "high": hi},
                               "lead": [2], "input": "numpy", "normalize": True, "pat": 1})
+        # ---- round 4: non-uniform (per-channel / per-pixel) image bounds, in particular inside [0, 1] with max(high) == 1 and
+        #      min(low) == 0: the "already normalised" shortcut must look at EVERY bound, not at the extremes
+        def chan(shape, per_channel):
+            hw = shape[1] * shape[2]
+            return [x for x in per_channel for _ in range(hw)]
+        nonuni = []
+        for shape in ([2, 1, 2], [1, 2, 2]):
+            C = shape[0]
+            if C == 2:
+                nonuni += [(shape, chan(shape, [0, 0.25]), chan(shape, [1, 0.75])),      # channel A [0,1], channel B [0.25,0.75]
+                           (shape, chan(shape, [0, 0.5]), 1),                              # low: zeros and non-zeros, high all ones
+                           (shape, 0, chan(shape, [1, 2])),                                # high: ones and twos, low all zeros
+                           (shape, chan(shape, [0.25, 0]), chan(shape, [0.75, 1]))]        # same as the first, channels swapped
+            else:
+                nonuni += [(shape, [0, 0.25, 0.5, 0], [1, 0.75, 1, 0.5]),                  # per pixel, extremes exactly 0 and 1
+                           (shape, [0, 0, 0.5, 0], 1), (shape, 0, [1, 1, 2, 1]),
+                           (shape, [0, 0, 0, 0], [1, 1, 1, 1]),                            # explicit lists that ARE uniform [0,1]: shortcut applies
+                           (shape, [-1, 0, 0, 0], [1, 2, 1, 1])]                           # other extremes
+        for (shape, lo, hi) in nonuni:
+            sp = {"t": "box", "shape": shape, "dtype": "float32", "low": lo, "high": hi}
+            for lead in leads:
+                for inp in (["numpy", "tensor"] if lead in ([], [2], [2, 3]) else ["numpy"]):
+                    add(sp, lead, inp, True, pat=1)
+            add(sp, [2], "numpy", False, pat=1)
+            for lead in [[], [1], [2], [2, 3]]:
+                for order in ([0, 1], [1, 0]):
+                    cases.append({"kind": "prep", "space": {"t": "dict", "fields": [[0, sp], [1, leafs["d3"]]]}, "lead": lead,
+                                  "input": "numpy" if order == [0, 1] else "tensordict", "normalize": True, "order": order, "pat": 1})
+                cases.append({"kind": "prep", "space": {"t": "tuple", "members": [leafs["v2"], sp]}, "lead": lead, "input": "numpy",
+                              "normalize": True, "pat": 1})
+            for lead in [[], [2]]:
+                for inp in ["numpy", "tensor"]:
+                    cases.append({"kind": "norm", "space": sp, "lead": lead, "input": inp, "pat": 1})
+        big = [2, 6, 6]
+        for algo in ["DQN", "PPO", "DDPG"]:              # through a real agent (per-channel bounds of a 2-channel image)
+            for (lo, hi) in [(chan(big, [0, 0.25]), chan(big, [1, 0.75])), (0, chan(big, [1, 2]))]:
+                for lead in [[], [2]]:
+                    cases.append({"kind": "prep", "algo": algo, "space": {"t": "box", "shape": big, "dtype": "float32", "low": lo, "high": hi},
+                                  "lead": lead, "input": "numpy", "normalize": True, "pat": 1})
         # MultiBinary with several dimensions (pinned behaviour: batched as a rank-1 space; known finding)
         for dims in ([[2, 3], [1, 2]] + ([[2, 2, 2], [3, 1]] if thorough else [])):
             for lead in [[], [1], [2], [2, 3]]:
@@ -612,6 +651,12 @@ def _norm_branch(case):
     sp = case["space"]
     if not case["normalize"]:
         return "off"
+    if isinstance(sp["low"], list) or isinstance(sp["high"], list):
+        lo, hi = box_bounds(sp)
+        if np.all(hi == 1) and np.all(lo == 0):
+            return "already-unit-skip"
+        ext = float(hi.max()) == 1 and float(lo.min()) == 0
+        return "scaled-nonuniform" + ("-extremes-0-1" if ext else "")
     if sp["low"] == "-inf" or sp["high"] == "inf":
         return "unbounded-skip"
     if sp["low"] == 0 and sp["high"] == 1:
